@@ -24,7 +24,8 @@ def cfg : Cfg :=
     procfsClauses := mkClauses Gen.C20.procfsClauses
     win := winCfg
     broadcastAssigned := Gen.C20.winBroadcastAssigned
-    sunosPid0Named := Gen.C20.sunosPid0AdNamed }
+    sunosPid0Named := Gen.C20.sunosPid0AdNamed
+    winMapsLoopGuarded := Gen.C20.winMapsLoopGuarded }
 
 /-- the generated per-platform method list -/
 def methodsOf (p : Platform) : List Method :=
